@@ -443,6 +443,7 @@ def run_tokens(ctx, model):
     strings = numbering_strings(ctx)
     wires = []
     items = []
+    fails = 0
     for s, want in strings:
         for pre, post in (('', ''), ('ab', ''), ('a', 'b'), ('a', '*3'), ('a.c', '.d'), ('a{t ', '}'), ('a[t="', '"]')) + ESCAPE_CONTEXTS:
             src = pre + s + post
@@ -452,6 +453,8 @@ def run_tokens(ctx, model):
             ok = r[0] == 'ok' and any(k == ('RepeaterNumber',) + want and st == len(pre) and en == len(pre) + len(s)
                                       for k, st, en in r[1])
             if not ok:
+                fails += 1
+            if not ok and fails <= 3:       # a few token-level inputs; the end-to-end streams report the rest
                 ctx.property_failure('C02:tokenize:' + src,
                                      'tokenize(%r): no RepeaterNumber(size=%d, reverse=%r, base=%d) over [%d,%d): %r' % (
                                          (src,) + want[:3] + (len(pre), len(pre) + len(s), r)),
@@ -1097,11 +1100,29 @@ def run(ctx):
                     'output': r[1][:160] if r[0] == 'ok' else r})
 
 
+def replay_lorem(rp):
+    """lorem_util.replay_c02 with `draws` None meaning a fresh seeded stream."""
+    import lorem_util
+    r, o = lorem_util.impl_expand_oracle(rp['abbr'], rp['config'], draws=rp.get('draws'))
+    meta = dict(rp['meta'], counts=[tuple(c) for c in rp['meta']['counts']])
+    bad = lorem_util.oracle_c02(rp['abbr'], rp['config'], meta, r, o)
+    print('expand(%r, %s) -> %r' % (rp['abbr'], canon_cfg(rp['config']), r))
+    print('property %s' % ('FAILS: ' + bad if bad else 'holds on this input'))
+    return 1 if bad else 0
+
+
 def replay(ctx, obj):
     rp = obj.get('replay', {})
     if rp.get('component') == 'C02lorem':
         import lorem_util
-        return lorem_util.replay_c02(rp)
+        # The replay holds the random draws of the run that failed.  A library that words the text differently (the
+        # repaired / unchanged one) may ask for more draws than were recorded; the statement does not depend on the
+        # draws, so the input is then judged under a fresh seeded stream instead of being called a failure.
+        r, _ = lorem_util.impl_expand_oracle(rp['abbr'], rp['config'], draws=rp.get('draws') or [])
+        if r[0] == 'oracle-limit':
+            rp = dict(rp, draws=None)
+            print('recorded draws exhausted: judged under a fresh seeded draw stream')
+        return replay_lorem(rp)
     if rp.get('kind') == 'tokenize':
         r = impl_markup(rp['src'])
         want = ('RepeaterNumber',) + tuple(rp['want'])
